@@ -17,7 +17,7 @@ for d in sorted(glob.glob(os.path.join(here, 'seeded', '*'))):
     harmless = name.startswith(('harmless', 'borderline'))
     meta = json.load(open(os.path.join(d, 'meta.json'))) if os.path.exists(os.path.join(d, 'meta.json')) else {}
     target = meta.get('breaks_property') or name.split('-')[0]
-    sh('git -C %s checkout -- .' % MUT)
+    sh('git -C %s checkout -- . && ( [ "$(realpath %s)" = /repo ] || git -C %s clean -fdq )' % (MUT, MUT, MUT))
     r = sh('git -C %s apply %s' % (MUT, os.path.join(d, 'patch.diff')))
     if r.returncode != 0:
         print(name, 'DOES NOT APPLY', r.stdout[:200]); bad += 1
@@ -52,5 +52,5 @@ for d in sorted(glob.glob(os.path.join(here, 'seeded', '*'))):
             print(name, target, ('caught with failing input' if ok else 'NOT CAUGHT PROPERLY rc=%d %s' % (rc, v)) + extra, '%.0fs' % (time.time() - t0), flush=True)
         bad += 0 if ok else 1
     finally:
-        sh('git -C %s checkout -- .' % MUT)
+        sh('git -C %s checkout -- . && ( [ "$(realpath %s)" = /repo ] || git -C %s clean -fdq )' % (MUT, MUT, MUT))
 print('problems:', bad)
